@@ -1,9 +1,81 @@
 import RustbusModel.Model.Proto
+import RustbusModel.Model.FdConc
 namespace Driver.C12
-open Rustbus Rustbus.Proto
+open Rustbus Rustbus.Proto Rustbus.FdConc
 
-/-- line protocol handler for the ops `c12.*` (tokens of one request line → one response line) -/
+/-- the number used for the original descriptor in driver runs (the harness maps real numbers to names) -/
+def origNum : Int := 100
+
+def parseOp (c : Char) : Option Op :=
+  if c == 't' then some .take
+  else if c == 'g' then some .get
+  else if c == 'd' then some .dup
+  else if c == 'c' then some .clone
+  else if c == 'x' then some .drop
+  else none
+
+def parseProg (s : String) : Option (List Op) :=
+  if s == "-" then some [] else s.toList.mapM parseOp
+
+def parseSched (s : String) : Option (List Nat) :=
+  if s == "-" then some [] else
+  s.toList.mapM (fun c => if '0' ≤ c ∧ c ≤ '9' then some (c.toNat - '0'.toNat) else none)
+
+def fdName (v : Int) : String := if v == origNum then "o" else "?"
+
+def showRes : Res → String
+  | .takeSome fd => "T" ++ fdName fd
+  | .takeNone => "t-"
+  | .getSome fd => "G" ++ fdName fd
+  | .getNone => "g-"
+  | .dupOk n => "Dd" ++ toString (n + 1)
+  | .dupTaken => "d-"
+  | .cloned => "c"
+  | .dropped => "x"
+
+/-- the point at which the thread waits after a grant, as the harness names it -/
+def label (th : Thread) : String :=
+  match th.pc with
+  | .idle => if th.finished then "F" else "S"
+  | .takeLoad | .getLoad | .dupLoad | .dropLoad _ => "L"
+  | .takeCas _ | .dropCas _ _ => "X"
+  | .dupSys v => "D" ++ fdName v
+  | .dupClose n => "Cd" ++ toString (n + 1)
+  | .dropClose _ v => "C" ++ fdName v
+  | .innerDrop _ => "I"
+  | .takeDec _ | .dropDec => "?"
+
+def showSys : Nat × Act → String
+  | (t, .dupSys v n) => toString t ++ ":dup:" ++ fdName v ++ ">d" ++ toString (n + 1)
+  | (t, .close (.num v)) => toString t ++ ":close:" ++ fdName v
+  | (t, .close (.dupd n)) => toString t ++ ":close:d" ++ toString (n + 1)
+  | _ => "?"
+
+def joinOr (sep : String) (l : List String) : String := if l.isEmpty then "-" else sep.intercalate l
+
+def execute (c : Config) : List Nat → List String → Option (Config × List String)
+  | [], acc => some (c, acc.reverse)
+  | t :: s, acc =>
+    match grant c t with
+    | none => none
+    | some c' =>
+      match c'.threads[t]? with
+      | none => none
+      | some th => execute c' s (label th :: acc)
+
 def handle : List String → String
+  | ["c12.run", progs, sched] =>
+    match (progs.splitOn "|").mapM parseProg, parseSched sched with
+    | some ps, some s =>
+      match execute (init origNum ps) s [] with
+      | none => "stuck"
+      | some (c, labels) =>
+        "steps=" ++ joinOr "," labels ++
+        " res=" ++ "|".intercalate (c.threads.map (fun th => joinOr "," (th.results.map showRes))) ++
+        " log=" ++ joinOr "," (c.syslog.map showSys) ++
+        " final=" ++ (if c.closesOf origNum == 0 then "open" else "closed") ++
+        " fin=" ++ (if c.finished then "1" else "0")
+    | _, _ => "bad-op"
   | _ => "bad-op"
 
 end Driver.C12
